@@ -25,7 +25,11 @@ Lemma ts_seq t vs : tv_ser (TSeq t) (SSeq vs) = rmap VArr (mapM (tv_ser t) vs). 
 Lemma ts_tuple ts vs : tv_ser (TTuple ts) (SSeq vs) = rmap VArr (zipM tv_ser ts vs). Proof. reflexivity. Qed.
 Lemma ts_tuple_struct n ts vs : tv_ser (TTupleStruct n ts) (SSeq vs) = rmap VArr (zipM tv_ser ts vs). Proof. reflexivity. Qed.
 Lemma ts_map kt vt es : tv_ser (TMap kt vt) (SMap es) = rmap btable_of (tv_entries kt vt es). Proof. reflexivity. Qed.
-Lemma ts_struct n fs vs : tv_ser (TStruct n fs) (SRec vs) = rmap btable_of (tv_fields fs vs). Proof. reflexivity. Qed.
+Lemma ts_struct_gen n fs vs : tv_ser (TStruct n fs) (SRec vs) =
+  rbind (tv_fields fs vs) (fun ps => if bytes_eqb n DT_NAME then tv_dt_end (btree_of_pairs (somes_pairs ps)) else Ok (btable_of ps)).
+Proof. reflexivity. Qed.
+Lemma ts_struct n fs vs : private_name n = false -> tv_ser (TStruct n fs) (SRec vs) = rmap btable_of (tv_fields fs vs).
+Proof. intro H. rewrite ts_struct_gen, (private_not_dt n H). destruct (tv_fields fs vs); reflexivity. Qed.
 Lemma ts_newtype n t v : tv_ser (TNewtype n t) (SNewtype v) = tv_ser t v. Proof. reflexivity. Qed.
 Lemma ts_enum n vs i p : tv_ser (TEnum n vs) (SVariant i p) = pick (tv_variant p) (Err EBadCase) vs i. Proof. reflexivity. Qed.
 Lemma tp_newtype t p : tv_payload (VNewtype t) p = tv_ser t p. Proof. destruct p; reflexivity. Qed.
@@ -124,7 +128,10 @@ Proof.
   - intros v e Hty Hser. destruct w; destruct v; simpl in Hty; try discriminate Hty; simpl in Hser; discriminate Hser.
   - intros v e Hty Hser. destruct v; simpl in Hty; try discriminate Hty; simpl in Hser; discriminate Hser.
   - intros v e Hty Hser. destruct v; simpl in Hty; try discriminate Hty; simpl in Hser; discriminate Hser.
-  - intros v e Hty Hser. destruct v; simpl in Hty; try discriminate Hty; simpl in Hser; discriminate Hser.
+  - (* TDatetime: the tunnel text is what Display printed; it parses (C12) *)
+    intros v e Hty Hser. destruct v; simpl in Hty; try discriminate Hty. simpl in Hser.
+    apply andb_true_iff in Hty as [Hr _]. unfold ser_datetime, dt_field_str in Hser.
+    rewrite (print_parse_std d Hr) in Hser. discriminate Hser.
   - intros v e Hty Hser. destruct v; simpl in Hty; try discriminate Hty. eexists. apply u_unit.
   - intros v e Hty Hser. destruct v; simpl in Hty; try discriminate Hty. eexists. apply u_unit_struct.
   - intros v e Hty Hser. destruct v; simpl in Hty; try discriminate Hty.
@@ -148,8 +155,8 @@ Proof.
       * eexists. eapply u_map_key; [exact Hin|]. apply ser_key_err; eassumption.
     + apply rmap_err in Ha. destruct (tverr_field t2 x e IHt2 Hx Ha) as (e' & U). eexists. eapply u_map_val; eassumption.
   - intros v e Hty Hser. destruct v; try (simpl in Hty; discriminate Hty).
-    rewrite ht_struct in Hty. apply andb_true_iff in Hty as [_ Hvs].
-    rewrite ts_struct in Hser. apply rmap_err in Hser.
+    rewrite ht_struct in Hty. apply andb_true_iff in Hty as [Hty Hvs]. apply andb_true_iff in Hty as [Hpriv _].
+    apply negb_true_iff in Hpriv. rewrite (ts_struct n fs vs Hpriv) in Hser. apply rmap_err in Hser.
     destruct (tverr_fields fs vs e H Hvs Hser) as (i & f & t & v & e' & H1 & H2 & H3). eexists. eapply u_struct; eassumption.
   - intros v e Hty Hser. destruct v; try (simpl in Hty; discriminate Hty).
     rewrite ht_newtype in Hty. rewrite ts_newtype in Hser. destruct (IHt v e Hty Hser) as (e' & U).
@@ -371,9 +378,10 @@ Proof.
     simpl. rewrite (de_char_encode c Hty). eexists; split; [reflexivity|constructor].
   - intros v x Hty Hs Hser. destruct v; simpl in Hser; try discriminate Hser. injection Hser as <-.
     eexists; split; [reflexivity|constructor].
-  - (* Datetime: written as { FIELD = "text" } *)
-    intros v x Hty Hs Hser. destruct v; simpl in Hser; try discriminate Hser. injection Hser as <-. simpl in Hty.
-    apply andb_true_iff in Hty as [Hr Hk]. cbn [tv_de tv_de_datetime]. rewrite bytes_eqb_refl. unfold de_dt_str.
+  - (* Datetime: through the tunnel on both sides *)
+    intros v x Hty Hs Hser. destruct v; simpl in Hser; try discriminate Hser. simpl in Hty.
+    apply andb_true_iff in Hty as [Hr Hk]. rewrite (ser_datetime_ok d x Hr Hser).
+    cbn [tv_de tv_de_datetime]. unfold de_dt_str.
     rewrite (print_parse_std d Hr). simpl. unfold dt_kind_check. rewrite Hk. eexists; split; [reflexivity|constructor].
   - intros v x Hty Hs Hser. destruct v; simpl in Hser; discriminate Hser.
   - intros v x Hty Hs Hser. destruct v; simpl in Hser; discriminate Hser.
@@ -393,8 +401,8 @@ Proof.
     rewrite td_tuple, D. eexists; split; [reflexivity|constructor; exact E].
   - apply tvrt_map. exact IHt2.
   - intros v x Hty Hs Hser. destruct v; try (simpl in Hser; discriminate Hser).
-    rewrite ht_struct in Hty. apply andb_true_iff in Hty as [Hty Hvs]. apply andb_true_iff in Hty as [_ Hnd].
-    rewrite ts_struct in Hser. apply rmap_ok in Hser as (ps & Hps & ->).
+    rewrite ht_struct in Hty. apply andb_true_iff in Hty as [Hty Hvs]. apply andb_true_iff in Hty as [Hpriv Hnd].
+    apply negb_true_iff in Hpriv. rewrite (ts_struct n fs vs Hpriv) in Hser. apply rmap_ok in Hser as (ps & Hps & ->).
     destruct (tvrt_struct_fields fs H vs ps Hnd Hvs) as (es & -> & vs' & D & E); [|exact Hps|].
     { intros i f t v e H1 H2 U. apply (Hs e). eapply u_struct; eassumption. }
     rewrite td_struct, D. eexists; split; [reflexivity|constructor; exact E].
@@ -455,17 +463,38 @@ Proof.
   apply (tv_roundtrip_supported t v x Hty Hs Hx).
 Qed.
 
-(* Table::try_from: whatever it accepts is what Value::try_from builds *)
-Theorem tv_table_is_value t : forall v out, tv_ser_table t v = Ok out -> tv_ser t v = Ok out.
+(* Table::try_from: whatever it accepts is what Value::try_from builds — except a Datetime at the root (behind
+   Some / newtype structs), which TableSerializer::serialize_struct = serialize_map writes as the table
+   { FIELD = "text" } (known class private-datetime-key) where Value::try_from yields the date-time *)
+Theorem tv_table_cases t : forall v out, has_type_b t v = true -> tv_ser_table t v = Ok out ->
+  tv_ser t v = Ok out
+  \/ exists d, out = VTab [(DT_FIELD, VStr (display_datetime d))] /\ tv_ser t v = ser_datetime d.
 Proof.
-  induction t using ty_ind2 with (Q := fun _ => True); try exact I; intros v out Hser;
+  induction t using ty_ind2 with (Q := fun _ => True); try exact I; intros v out Hty Hser;
     try (destruct v; simpl in Hser; discriminate Hser).
   - (* TInt *) destruct v; simpl in Hser; try discriminate Hser. destruct (ser_method_of w); discriminate Hser.
-  - (* TDatetime *) destruct v; simpl in Hser; try discriminate Hser. exact Hser.
-  - (* TOpt *) destruct v; try (simpl in Hser; discriminate Hser). rewrite ts_opt_some. apply IHt. exact Hser.
-  - (* TMap *) destruct v; try (simpl in Hser; discriminate Hser). exact Hser.
-  - (* TStruct *) destruct v; try (simpl in Hser; discriminate Hser). exact Hser.
-  - (* TNewtype *) destruct v; try (simpl in Hser; discriminate Hser). rewrite ts_newtype. apply IHt. exact Hser.
+  - (* TDatetime *) destruct v; simpl in Hser; try discriminate Hser. injection Hser as <-. right. exists d. split; reflexivity.
+  - (* TOpt *) destruct v; try (simpl in Hser; discriminate Hser). rewrite ts_opt_some. rewrite ht_opt_some in Hty. apply IHt; assumption.
+  - (* TMap *) destruct v; try (simpl in Hser; discriminate Hser). left. exact Hser.
+  - (* TStruct *) destruct v; try (simpl in Hser; discriminate Hser). left.
+    rewrite ht_struct in Hty. apply andb_true_iff in Hty as [Hty _]. apply andb_true_iff in Hty as [Hpriv _].
+    apply negb_true_iff in Hpriv. rewrite (ts_struct n fs vs Hpriv). exact Hser.
+  - (* TNewtype *) destruct v; try (simpl in Hser; discriminate Hser). rewrite ts_newtype. rewrite ht_newtype in Hty. apply IHt; assumption.
+  - destruct v as [| | | | | | | | | | | | | |i p]; try (simpl in Hser; discriminate Hser).
+    simpl in Hser.
+    match type of Hser with pick ?f ?d vs i = _ => destruct (pick_cases f d vs i) as [([vn var] & Hn & E)|[_ E]]; rewrite E in Hser end;
+      [|discriminate Hser].
+    simpl in Hser. destruct var; try discriminate Hser. left. exact Hser.
+Qed.
+
+Lemma tv_table_direct t v out : has_type_b t v = true -> tv_ser_table t v = Ok out ->
+  match t with TMap _ _ | TStruct _ _ | TEnum _ _ => tv_ser t v = Ok out | _ => True end.
+Proof.
+  intros Hty Hser. destruct t; try exact I.
+  - destruct v; try (simpl in Hser; discriminate Hser). exact Hser.
+  - destruct v; try (simpl in Hser; discriminate Hser).
+    rewrite ht_struct in Hty. apply andb_true_iff in Hty as [Hty _]. apply andb_true_iff in Hty as [Hpriv _].
+    apply negb_true_iff in Hpriv. rewrite (ts_struct name fs vs Hpriv). exact Hser.
   - destruct v as [| | | | | | | | | | | | | |i p]; try (simpl in Hser; discriminate Hser).
     simpl in Hser.
     match type of Hser with pick ?f ?d vs i = _ => destruct (pick_cases f d vs i) as [([vn var] & Hn & E)|[_ E]]; rewrite E in Hser end;
@@ -473,6 +502,37 @@ Proof.
     simpl in Hser. destruct var; try discriminate Hser. exact Hser.
 Qed.
 
+(* reading the private-key table back as the (wrapped) Datetime type *)
+Lemma tv_de_root_datetime t : forall v d, has_type_b t v = true -> tv_ser t v = ser_datetime d ->
+  tv_ser_table t v = Ok (VTab [(DT_FIELD, VStr (display_datetime d))]) ->
+  exists v', tv_de t (VTab [(DT_FIELD, VStr (display_datetime d))]) = Ok v' /\ sval_eq v v'.
+Proof.
+  induction t using ty_ind2 with (Q := fun _ => True); try exact I; intros v d0 Hty Hs Ht;
+    try (destruct v; simpl in Ht; discriminate Ht).
+  - destruct v; simpl in Ht; try discriminate Ht. destruct (ser_method_of w); discriminate Ht.
+  - (* TDatetime *) destruct v; simpl in Ht; try discriminate Ht. simpl in Hty. apply andb_true_iff in Hty as [Hr Hk].
+    injection Ht as Ht. cbn [tv_de tv_de_datetime]. rewrite bytes_eqb_refl. unfold de_dt_str.
+    assert (Hd : display_datetime d = display_datetime d0) by congruence. rewrite <- Hd.
+    rewrite (print_parse_std d Hr). simpl. unfold dt_kind_check. rewrite Hk. eexists; split; [reflexivity|constructor].
+  - (* TOpt *) destruct v; try (simpl in Ht; discriminate Ht). rewrite ht_opt_some in Hty. rewrite ts_opt_some in Hs.
+    destruct (IHt v d0 Hty Hs Ht) as (v' & D & E). rewrite td_opt, D. eexists; split; [reflexivity|constructor; exact E].
+  - (* TMap: a map is never serialized as a date-time *)
+    exfalso. pose proof (tv_table_direct _ _ _ Hty Ht) as E. lazy beta iota in E. rewrite E in Hs.
+    unfold ser_datetime in Hs. destruct (dt_field_str (display_datetime d0)); discriminate Hs.
+  - (* TStruct *)
+    exfalso. pose proof (tv_table_direct _ _ _ Hty Ht) as E. lazy beta iota in E. rewrite E in Hs.
+    unfold ser_datetime in Hs. destruct (dt_field_str (display_datetime d0)); discriminate Hs.
+  - (* TNewtype *) destruct v; try (simpl in Ht; discriminate Ht). rewrite ht_newtype in Hty. rewrite ts_newtype in Hs.
+    destruct (IHt v d0 Hty Hs Ht) as (v' & D & E). rewrite td_newtype, D. eexists; split; [reflexivity|constructor; exact E].
+  - (* TEnum *)
+    exfalso. pose proof (tv_table_direct _ _ _ Hty Ht) as E. lazy beta iota in E. rewrite E in Hs.
+    unfold ser_datetime in Hs. destruct (dt_field_str (display_datetime d0)); discriminate Hs.
+Qed.
+
 Theorem table_tryfrom_roundtrip t v out : has_type v t -> supported t v -> tv_ser_table t v = Ok out ->
   exists v', tv_de t out = Ok v' /\ sval_eq v v'.
-Proof. intros Hty Hs H. apply (tv_roundtrip_supported t v out Hty Hs). apply tv_table_is_value. exact H. Qed.
+Proof.
+  intros Hty Hs H. destruct (tv_table_cases t v out Hty H) as [E|(d & -> & E)].
+  - apply (tv_roundtrip_supported t v out Hty Hs E).
+  - apply (tv_de_root_datetime t v d Hty E H).
+Qed.
